@@ -510,14 +510,32 @@ class Norm:
         if k == "blk":
             b = n["b"]
             saved = dict(self.env)
-            for s in b["stmts"]:
-                if s.get("k") == "let" and s["pat"].get("k") == "bind" and s["init"] is not None:
-                    self.env[s["pat"]["hid"]] = self.norm(s["init"])
-                else:
+            nodes = list(b["stmts"])
+            try:
+                for i_, s in enumerate(nodes):
+                    if s.get("k") == "let" and s["pat"].get("k") == "bind" and s["init"] is not None:
+                        self.env[s["pat"]["hid"]] = self.norm(s["init"])
+                        continue
+                    s0 = strip(s)
+                    if s0 is not None and s0.get("k") == "if" and s0["el"] is None:
+                        # guard clause `if c { return v; }` (or `break 'inlined v`): the value is ite(c, v, <rest of the block>)
+                        th = strip(s0["th"])
+                        while th is not None and th.get("k") == "blk" and len(th["b"]["stmts"]) + (1 if th["b"]["tail"] is not None else 0) == 1:
+                            th = strip((th["b"]["stmts"] or [th["b"]["tail"]])[0])
+                        if th is not None and th.get("k") in ("ret", "break") and th.get("v") is not None:
+                            cond = self.norm(s0["c"])
+                            v_then = self.norm(th["v"])
+                            rest = {"k": "blk", "b": {"k": "block", "stmts": nodes[i_ + 1:], "tail": b["tail"]}}
+                            v_rest = self.norm(rest)
+                            return ite(cond, v_then, v_rest)
                     raise ValueError("statement in scalar block: " + short(pretty(s), 60))
-            r = self.norm(b["tail"])
-            self.env = saved
-            return r
+                t_ = b["tail"]
+                if t_ is not None and strip(t_).get("k") in ("ret", "break") and strip(t_).get("v") is not None:
+                    t_ = strip(t_)["v"]
+                r = self.norm(t_)
+                return r
+            finally:
+                self.env = saved
         if k == "match":
             return self.match_option(n)
         if k == "path":
